@@ -46,6 +46,8 @@ func runC19(c *Ctx) {
 	})
 	r.Rule("R19-meta", "a decoded FEN's castling rights and en-passant square are compared with the placement, and the en-passant square with the side to move: some decision in the decoding family depends on both and rejects or repairs", 3)
 	c.guard("R19-meta", func() { c19Meta(c) })
+	r.Rule("R19-pushsrc", "every move pushed on a board outside the board package derives from that position's own move generator (text may select among generated moves but is never pushed itself)", 5)
+	c.guard("R19-pushsrc", func() { c19PushSrc(c, "R19-pushsrc") })
 	c.guard("R19-err", func() { c19Err(c) })
 	c.guard("R19-square", func() { c19Square(c) })
 	c.guard("R19-index", func() { c19Index(c) })
